@@ -341,6 +341,16 @@ func (e *Engine) applyContract(st *State, in ssa.Instruction, t callTarget, k fu
 	defer func() { st.curInstr = nil }()
 	oldF, oldN := st.bumpFrontier()
 	st.callFresh = nil
+	// the result exists before the frame is applied, so that a modifies clause can name
+	// locations of a freshly returned object (e.g. the ghost state of a new list element)
+	rt := resultType(t.sig)
+	res := st.freshVal(rt, st.ctx.freshName("r!"+t.name))
+	st.boundRefs(res)
+	if res.Tup != nil {
+		env.results = res.Tup
+	} else if tt, ok := rt.(*types.Tuple); !ok || tt.Len() > 0 {
+		env.results = []Val{res}
+	}
 	// frame
 	if c.ModifiesAll || (len(c.Modifies) == 0 && !c.Pure && len(c.Callsback) == 0) {
 		// no frame given: everything reachable from the arguments may change
@@ -354,10 +364,6 @@ func (e *Engine) applyContract(st *State, in ssa.Instruction, t callTarget, k fu
 	if len(c.Callsback) > 0 {
 		e.callsbackFrame(st, in, t, c)
 	}
-	// result
-	rt := resultType(t.sig)
-	res := st.freshVal(rt, st.ctx.freshName("r!"+t.name))
-	st.boundRefs(res)
 	env2 := e.contractEnv(st, t, old)
 	env2.callSite = true
 	env2.freshLo = Add(oldF, I(int64(oldN)))
@@ -1410,7 +1416,17 @@ func (st *State) frameLocs() []frameLoc {
 
 func (st *State) strictFrame() bool {
 	c := st.ctx.contract
-	return c != nil && (c.Pure || len(c.Modifies) > 0) && st.dry == nil
+	if c == nil || st.dry != nil {
+		return false
+	}
+	for _, m := range c.Modifies {
+		// state(x) / fields(x) frames are coarse (everything x reaches): call sites havoc all of
+		// it, so there is nothing finer to check on the body
+		if strings.HasPrefix(strings.TrimSpace(m.Text), "state(") || strings.HasPrefix(strings.TrimSpace(m.Text), "fields(") {
+			return false
+		}
+	}
+	return c.Pure || len(c.Modifies) > 0
 }
 
 func isFreshRef(t Term) bool { return strings.HasPrefix(t.S, "(+ A0 ") || strings.HasPrefix(t.S, "(+ B!") }
